@@ -221,7 +221,7 @@ where
 
             // Response::None occurs when something was really
             // malformed, so close the connection.
-            Response::None => return Ok(()),
+            Response::None => return close_after_draining(&mut socket, &mut received_buf).await,
         };
 
         // We won't continue to service this connection if we are
@@ -295,6 +295,25 @@ async fn read_message_over_tcp(
 
         // Prepare for the next iteration.
         *n_read += n_read_this_time;
+    }
+}
+
+/// Closes a TCP connection without resetting it.
+///
+/// This is the counterpart of the function of the same name in the
+/// blocking I/O provider; see the notes there.
+async fn close_after_draining(socket: &mut TcpStream, scratch_buf: &mut [u8]) -> io::Result<()> {
+    socket.shutdown().await?;
+    let drain = async {
+        loop {
+            if socket.read(scratch_buf).await? == 0 {
+                return Ok(());
+            }
+        }
+    };
+    match timeout(super::READ_MESSAGE_TIMEOUT, drain).await {
+        Ok(result) => result,
+        Err(_) => Ok(()), // The operation timed out.
     }
 }
 
